@@ -49,46 +49,53 @@ var verifEntryNames = []string{"ParseStatement", "ParseStatements", "ParseQuery"
 
 // verifParse calls entry point e; lists are returned as nodes slice, single results as nodes[0].
 func verifParse(e int, x string) (nodes []ast.Node, isList bool, err error) {
+	nodes, isList, err, _ = verifParseP(e, x)
+	return
+}
+
+// verifParseP is verifParse that also returns the Parser (to observe how far it read).
+func verifParseP(e int, x string) (nodes []ast.Node, isList bool, err error, p *Parser) {
+	p = newParser("f", x)
 	switch e {
 	case verifEStatement:
-		n, err := ParseStatement("f", x)
-		return []ast.Node{n}, false, err
+		n, err := p.ParseStatement()
+		return []ast.Node{n}, false, err, p
 	case verifEStatements:
-		ns, err := ParseStatements("f", x)
+		ns, err := p.ParseStatements()
 		for _, n := range ns {
 			nodes = append(nodes, n)
 		}
-		return nodes, true, err
+		return nodes, true, err, p
 	case verifEQuery:
-		n, err := ParseQuery("f", x)
+		n, err := p.ParseQuery()
 		if n == nil {
-			return []ast.Node{nil}, false, err
+			return []ast.Node{nil}, false, err, p
 		}
-		return []ast.Node{n}, false, err
+		return []ast.Node{n}, false, err, p
 	case verifEExpr:
-		n, err := ParseExpr("f", x)
-		return []ast.Node{n}, false, err
+		n, err := p.ParseExpr()
+		return []ast.Node{n}, false, err, p
 	case verifEType:
-		n, err := ParseType("f", x)
-		return []ast.Node{n}, false, err
+		n, err := p.ParseType()
+		return []ast.Node{n}, false, err, p
 	case verifEDDL:
-		n, err := ParseDDL("f", x)
-		return []ast.Node{n}, false, err
+		n, err := p.ParseDDL()
+		return []ast.Node{n}, false, err, p
 	case verifEDDLs:
-		ns, err := ParseDDLs("f", x)
+		ns, err := p.ParseDDLs()
 		for _, n := range ns {
 			nodes = append(nodes, n)
 		}
-		return nodes, true, err
+		return nodes, true, err, p
 	case verifEDML:
-		n, err := ParseDML("f", x)
-		return []ast.Node{n}, false, err
+		n, err := p.ParseDML()
+		return []ast.Node{n}, false, err, p
 	case verifEDMLs:
-		ns, err := ParseDMLs("f", x)
+		ns, err := p.ParseDMLs()
 		for _, n := range ns {
 			nodes = append(nodes, n)
 		}
-		return nodes, true, err
+		return nodes, true, err, p
 	}
 	panic("verifParse: bad entry")
 }
